@@ -141,7 +141,9 @@ func ID(t *rapid.T, label string) string {
 func Syscall(t *rapid.T, typ uint16, exe, comm []byte, keys [][]byte) kenc.Rec {
 	r := kenc.Rec{Type: typ}
 	arch := pick(t, "arch", ArchCodes...)
-	num := rapid.OneOf(rapid.IntRange(0, 450), rapid.IntRange(0, 5000)).Draw(t, "syscall")
+	// (the kernel prints the number signed: -1 when a tracer or a seccomp filter cancelled the call; x32 calls carry
+	// bit 30)
+	num := rapid.OneOf(rapid.IntRange(0, 450), rapid.IntRange(0, 5000), rapid.SampledFrom([]int{-1, 1<<30 | 1, -2, 1 << 30, 1<<31 - 1, -1 << 31, 1<<30 | 59})).Draw(t, "syscall")
 	if typ == SECCOMP {
 		r.Fields = append(r.Fields, kenc.P("auid", ID(t, "auid")), kenc.P("uid", ID(t, "uid")), kenc.P("gid", ID(t, "gid")),
 			kenc.P("ses", ID(t, "ses")), kenc.P("pid", Num(t, "pid", 99999)), kenc.U("comm", string(comm)), kenc.U("exe", string(exe)),
